@@ -177,6 +177,9 @@ pub struct ContainerRun {
 pub fn execute(spec: &ContainerSpec) -> ContainerRun {
     let mut world = World::new();
     world.knobs.bufwriter_cap = spec.bufwriter_cap as usize;
+    // reader buffer: the shipped 8 KiB, or (faulty configurations) a small one so that a reader
+    // has to go back to the file for almost every part
+    world.knobs.bufreader_cap = if spec.bufwriter_cap != 4 << 20 { [1usize, 7, 64, 512, 8192][(spec.fault_seed % 5) as usize] } else { 8192 };
     world.faults = FaultPlan {
         short_write_pct: spec.short_write_pct,
         eintr_write_pct: spec.eintr_write_pct,
